@@ -34,27 +34,32 @@ RUN_PROFILES = {
 PROPS = {
     "C01": dict(kind="run", proj="P_C01", mon="mon_C01",
                 profiles=["default", "imm", "sync", "loops", "parallel", "parloop", "react", "react_loops"],
-                quick=240, thorough=6000, finding_profiles=["react_all"]),
+                quick=240, thorough=6000, finding_profiles=["react_all", "parloop_all"]),
     "C02": dict(kind="run", proj="P_seq", mon="mon_true",
-                profiles=["blocks", "default", "imm", "loops", "react_loops"], quick=240, thorough=6000),
+                profiles=["blocks", "default", "imm", "loops", "react_loops"], quick=240, thorough=6000,
+                finding_profiles=["parloop_all"]),
     "C03": dict(kind="run", proj="P_set", mon="mon_true",
-                profiles=["parallel", "parloop", "react"], quick=240, thorough=6000),
+                profiles=["parallel", "parloop", "react"], quick=240, thorough=6000,
+                finding_profiles=["parloop_all"]),
     "C04": dict(kind="run", proj="P_C04", mon="mon_true",
-                profiles=["cond", "default"], quick=240, thorough=6000),
+                profiles=["cond", "default", "react_loops"], quick=240, thorough=6000,
+                finding_profiles=["parloop_all"]),
     "C05": dict(kind="run", proj="P_seq", mon="mon_true",
-                profiles=["loops"], quick=240, thorough=6000),
+                profiles=["loops", "react_loops"], quick=240, thorough=6000, finding_profiles=["parloop_all"]),
     "C06": dict(kind="run", proj="P_set", mon="mon_true",
                 profiles=["parloop", "react_parloop"], quick=240, thorough=6000, finding_profiles=["parloop_all"]),
     "C07": dict(kind="run", proj="P_ids", mon="mon_C07",
                 profiles=["default", "imm", "parallel", "loops", "parloop", "react", "react_loops"], quick=240, thorough=6000,
-                finding_profiles=["react_all"]),
+                finding_profiles=["react_all", "parloop_all"]),
     "C08": dict(kind="run", proj="P_C08", mon="mon_C08",
-                profiles=["junk", "react_junk", "react"], quick=240, thorough=6000),
+                profiles=["junk", "react_junk", "react"], quick=240, thorough=6000,
+                finding_profiles=["parloop_all"]),
     "C14": dict(kind="run", proj="P_ids", mon="mon_C14",
-                profiles=["uuid", "loops", "parloop", "parallel", "react_loops"], quick=240, thorough=6000),
+                profiles=["uuid", "loops", "parloop", "parallel", "react_loops"], quick=240, thorough=6000,
+                finding_profiles=["parloop_all"]),
     "C15": dict(kind="run", proj="P_C15", mon="mon_true",
                 profiles=["params", "hostile_append", "hostile_clear", "hostile_replace"],
-                quick=240, thorough=6000),
+                quick=240, thorough=6000, finding_profiles=["parloop_all"]),
     "C17": dict(kind="run", proj="P_C17", mon="mon_C17",
                 profiles=["observers"], quick=200, thorough=5000),
     "C20": dict(kind="run", proj="P_C20", mon="mon_C20",
